@@ -1005,7 +1005,8 @@ class Oracle:
                         if getattr(self, 'report_residual', False) and i in getattr(self, 'prev_saved', ()) \
                                 and i in getattr(self, 'prev_dirty', ()):
                             # open finding (residual of the repaired stored-new-object family)
-                            raise Verdict('C12:savepoint-created-object-ghostified-on-abort',
+                            raise Verdict(os.environ.get('C11LIB_RESIDUAL_SIG',
+                                                         'C12:savepoint-created-object-ghostified-on-abort'),
                                           'object %d was created in a savepoint and modified later; after %r it '
                                           'belongs to no database and has lost its state' % (i, op))
                         self.lost.add(i)      # (tolerated when the check at hand is not C12 itself)
@@ -1078,7 +1079,9 @@ def judge(case, real, pid):
         import c11_misc
         return c11_misc.judge(case, real)
     o = Oracle(case['n'], pid)
-    o.report_residual = check_pid == 'C12'
+    # (with a tiny cache the cache GC inside savepoint() makes ghosts of saved NEW objects, whose only state is
+    # then in the savepoint store: un-adding such a ghost loses it by a different mechanism — tolerated)
+    o.report_residual = check_pid == 'C12' and not case.get('loose')
     try:
         o.lastkind = None
         o.check_vector(real[0].split(' | ')[1], 'reset')
@@ -1658,8 +1661,16 @@ def run_check(pid, argv=None):
         if case.get('selfact'):
             ck.count('oracle-only:self-activating-object')
             cut = 0         # such objects are not in the Lean model: judged by the oracle alone
+        def norm(line, k):
+            # (the observation between a failed savepoint and the abort that follows is not at a transaction
+            # boundary: whether the connection's view was refreshed by then is not part of the comparison)
+            op = (['reset'] + case['ops'])[k]
+            if op.startswith('spf') and line.startswith('fail:') and line.count(' | ') == 2:
+                a, _, c = line.split(' | ')
+                return a + ' | ' + c
+            return line
         for k in range(min(cut, len(real))):
-            if real[k] != model[k]:
+            if norm(real[k], k) != norm(model[k], k):
                 op = (['reset'] + case['ops'])[k]
                 ck.mismatch('model/impl differ at op #%d %r: impl %r model %r' % (k, op, real[k], model[k]),
                             dict(kind=case['kind'], n=case['n'], ops=case['ops'][:k], real=real[:k + 1],
